@@ -6,6 +6,7 @@ Only property theorems and non-vacuity examples live here; helper lemmas are in
 lengths are those of `Layout.lean` (C02).
 -/
 import DdsModel.Proofs.Header
+import DdsModel.Proofs.HeaderDefects
 import DdsModel.HeaderTables
 import DdsModel.Drv.C18
 namespace Dds.C18
@@ -109,5 +110,62 @@ theorem repair_exact (pi : Header → Option PixelInfo) (raw : RawHeader) (fileL
             obtain ⟨x, rfl, hx0, _, rfl⟩ := Header.arrayZero?_some hz
             rw [hz] at hchg
             simp [Header.mipmapCount, Header.arraySize, hx0] at hchg
+
+
+/-- the pinned pixel-info detection looks at the format only -/
+theorem pixelInfoOf_stable : PiStable pixelInfoOf := by
+  intro a b hk
+  cases a with
+  | dx9 x =>
+    cases b with
+    | dx9 y =>
+      simp only [Header.fmtKey, Prod.mk.injEq] at hk
+      simp only [pixelInfoOf, hk.1]
+    | dx10 y =>
+      simp only [Header.fmtKey, Prod.mk.injEq] at hk
+      -- a DX9 header with four CC DX10 and DXGI code 0: both have no pixel info
+      simp only [pixelInfoOf, hk.1, ← hk.2]
+      decide
+  | dx10 x =>
+    cases b with
+    | dx9 y =>
+      simp only [Header.fmtKey, Prod.mk.injEq] at hk
+      simp only [pixelInfoOf, ← hk.1, hk.2]
+      decide
+    | dx10 y =>
+      simp only [Header.fmtKey, Prod.mk.injEq] at hk
+      simp only [pixelInfoOf, hk.2]
+
+/-- Every single known defect (`Defect.Applies`: array size 0 / 6-for-one-cube / 3D array size,
+mip count such that the true count is 1, the full chain or one off, dropped mip flags, header
+size 24, pixel-format size 0 or 24, missing FourCC flag, bad alpha mode) applied to `to_raw h`
+of a valid header `h` (well-formed, with a layout of positive length `L`, array size not 0) is
+parsed — permissively, with the true file length — to a header whose layout length is `L`.
+The result need not be `h` itself: an earlier candidate is accepted only when its length is
+`L` as well (and the alpha mode of a bad-alpha file is `Unknown`). -/
+theorem defect_recovered (pi : Header → Option PixelInfo) (hs : PiStable pi) (h : Header)
+    (hwf : h.WF) (px : PixelInfo) (hpx : pi h = some px) (L : Nat) (hL : h.layoutLen px = some L)
+    (hLpos : 0 < L) (harr : h.arraySize ≠ 0) (d : Defect) (happ : d.Applies h) :
+    ∃ h', Header.fromRaw pi (ParseOptions.newPermissive (some (4 + h.byteLen + L)))
+        (d.apply (h.toRaw pi)) = .ok h' ∧ h'.layoutLen px = some L ∧ pi h' = some px :=
+  defect_recovered_single pi hs h hwf px hpx L hL hLpos harr d happ
+
+/-- Array size 0 combined with a mip defect (wrong count or dropped flags). -/
+theorem defect_recovered_array0_with_mips (pi : Header → Option PixelInfo) (hs : PiStable pi)
+    (x : Dx10Header) (hwf : (Header.dx10 x).WF) (px : PixelInfo) (hpx : pi (.dx10 x) = some px) (L : Nat)
+    (hL : (Header.dx10 x).layoutLen px = some L) (hLpos : 0 < L) (harr : x.arraySize = 1)
+    (md : Defect) (hmd : (∃ m, md = .mipCount m) ∨ md = .dropMipFlags) (happ : md.Applies (.dx10 x)) :
+    ∃ h', Header.fromRaw pi (ParseOptions.newPermissive (some (4 + (Header.dx10 x).byteLen + L)))
+        (Defect.applyAll [.arraySize 0, md] ((Header.dx10 x).toRaw pi)) = .ok h' ∧
+      h'.layoutLen px = some L ∧ pi h' = some px :=
+  defect_recovered_array0_mips pi hs x hwf px hpx L hL hLpos harr md hmd happ
+
+def exMip : Header := .dx10 { Dx10Header.new .image 16 16 0 71 with mipmapCount := 5 }
+example : exMip.WF ∧ pixelInfoOf exMip = some (.block 8 4 4) ∧ exMip.layoutLen (.block 8 4 4) = some 184 ∧
+    exMip.arraySize ≠ 0 ∧ (Defect.mipCount 4).Applies exMip ∧ (Defect.mipCount 1).Applies exMip ∧
+    (Defect.arraySize 0).Applies exMip ∧ (Defect.miscFlags2 7).Applies exMip ∧
+    Defect.dropMipFlags.Applies exMip ∧ (Defect.pfSize 0).Applies exMip := by decide
+example : (Defect.arraySize 6).Applies exHeader ∧
+    (Defect.pfFlags 0).Applies (.dx9 (Dx9Header.new .image 4 4 0 (.fourCC FOURCC_DXT1))) := by decide
 
 end Dds.C18
